@@ -321,10 +321,10 @@ def run(tier):
                     chk.inconclusive += 1
                     continue
                 nviol += 1
-                if nviol > 10:
+                if nviol > 6:
                     chk.count("further_failing_executions")
                     continue
-                progcheck.handle_violation(chk, "aliasing", g.prog, cls, res, O, os.path.join(sc.path, "v%d_%d" % (i, O)), reduce_budget=80)
+                progcheck.handle_violation(chk, "aliasing", g.prog, cls, res, O, os.path.join(sc.path, "v%d_%d" % (i, O)), reduce_budget=50)
             if i < 2:
                 chk.sample({"source_tail": outs[0][2].get("src", "")[-900:], "expected_stdout_head": exp[0][:200], "verdicts": [(O, c) for O, c, _ in outs]})
         chk.extra["cells_covered"] = len([d for d in chk.distinct if isinstance(d, tuple) and d and d[0] == "cell"])
